@@ -921,3 +921,310 @@ package gogu
 //@   ensures len(params) == 1 ==> rangeOKR(result0, 0, 1, params[0])
 //@   ensures len(params) == 2 ==> rangeOKR(result0, params[0], 1, params[1])
 //@   ensures len(params) == 3 && result1 == nil ==> rangeOKR(result0, params[0], params[1], params[2])
+
+// ---------------------------------------------------------------- C14: map helpers
+
+//@ func gogu.Keys
+//@   property C14 C16
+//@   ghost at map[K]int
+//@   ensures fresh(result) && len(result) == len(m)
+//@   ensures forall i int :: 0 <= i && i < len(result) ==> result[i] in m && at[result[i]] == i
+//@   ensures forall k K :: k in m ==> 0 <= at[k] && at[k] < len(result) && result[at[k]] == k
+//@ loop 1
+//@   invariant fresh(keys) && len(keys) == len(m) && idx == $n && 0 <= idx && idx <= len(m)
+//@   invariant forall i int :: 0 <= i && i < idx ==> keys[i] in $visited && at[keys[i]] == i
+//@   invariant forall k K :: k in $visited ==> k in m && 0 <= at[k] && at[k] < idx && keys[at[k]] == k
+//@   ghost at[k] = idx - 1
+
+//@ func gogu.Values
+//@   property C14 C16
+//@   ghost at map[K]int
+//@   ghost kat map[int]K
+//@   ensures fresh(result) && len(result) == len(m)
+//@   ensures forall i int :: 0 <= i && i < len(result) ==> kat[i] in m && result[i] == m[kat[i]] && at[kat[i]] == i
+//@   ensures forall k K :: k in m ==> 0 <= at[k] && at[k] < len(result) && kat[at[k]] == k
+//@ loop 1
+//@   invariant fresh(values) && len(values) == len(m) && idx == $n && 0 <= idx && idx <= len(m)
+//@   invariant forall i int :: 0 <= i && i < idx ==> kat[i] in $visited && values[i] == m[kat[i]] && at[kat[i]] == i
+//@   invariant forall k K :: k in $visited ==> k in m && 0 <= at[k] && at[k] < idx && kat[at[k]] == k
+//@   ghost at[$key] = idx - 1
+//@   ghost kat[idx - 1] = $key
+
+//@ func gogu.MapValues
+//@   property C14 C16
+//@   requires fn != nil
+//@   ensures fresh(result) && result != nil
+//@   ensures forall k K :: k in result <==> k in m
+//@   ensures forall k K :: k in m ==> result[k] == call(fn, m[k])
+//@ loop 1
+//@   invariant fresh(newMap) && newMap != nil
+//@   invariant forall k K :: k in newMap <==> k in $visited
+//@   invariant forall k K :: k in $visited ==> k in m && newMap[k] == call(fn, m[k])
+
+//@ func gogu.MapKeys
+//@   property C14 C16
+//@   requires fn != nil
+//@   ghost src map[R]K
+//@   ensures fresh(result) && result != nil
+//@   ensures forall r R :: r in result ==> src[r] in m && r == call(fn, src[r], m[src[r]]) && result[r] == m[src[r]]
+//@   ensures forall k K :: k in m ==> call(fn, k, m[k]) in result
+//@ loop 1
+//@   invariant fresh(newMap) && newMap != nil
+//@   invariant forall r R :: r in newMap ==> src[r] in $visited && src[r] in m && r == call(fn, src[r], m[src[r]]) && newMap[r] == m[src[r]]
+//@   invariant forall k K :: k in $visited ==> k in m && call(fn, k, m[k]) in newMap
+//@   ghost src[call(fn, k, v)] = k
+
+//@ func gogu.MapEvery
+//@   property C14 C16
+//@   requires fn != nil
+//@   ensures result <==> forall k K :: k in m ==> call(fn, m[k])
+//@ loop 1
+//@   invariant forall k K :: k in $visited ==> k in m && call(fn, m[k])
+
+//@ func gogu.MapSome
+//@   property C14 C16
+//@   requires fn != nil
+//@   ensures result <==> exists k K :: k in m && call(fn, m[k])
+//@ loop 1
+//@   invariant forall k K :: k in $visited ==> k in m && !call(fn, m[k])
+
+//@ func gogu.MapContains
+//@   property C14 C16
+//@   ensures result <==> exists k K :: k in m && m[k] == value
+//@ loop 1
+//@   invariant forall k K :: k in $visited ==> k in m && m[k] != value
+
+//@ func gogu.MapUnique
+//@   property C14 C16
+//@   ghost rep map[V]K
+//@   ensures fresh(result) && result != nil
+//@   ensures forall k K :: k in result ==> k in m && result[k] == m[k]
+//@   ensures forall k1 K, k2 K :: k1 in result && k2 in result && k1 != k2 ==> result[k1] != result[k2]
+//@   ensures forall k K :: k in m ==> rep[m[k]] in result && result[rep[m[k]]] == m[k]
+//@ loop 1
+//@   invariant fresh(result) && result != nil && fresh(ref) && ref != nil
+//@   invariant forall k K :: k in result ==> k in $visited && k in m && result[k] == m[k] && result[k] in ref && rep[result[k]] == k
+//@   invariant forall x V :: x in ref ==> rep[x] in result && result[rep[x]] == x
+//@   invariant forall k K :: k in $visited ==> k in m && m[k] in ref
+//@   ghost rep[v] = k when !ok
+
+//@ func gogu.MapCollection
+//@   property C14 C16
+//@   requires fn != nil
+//@   ghost at map[K]int
+//@   ghost kat map[int]K
+//@   ensures fresh(result) && len(result) == len(m)
+//@   ensures forall i int :: 0 <= i && i < len(result) ==> kat[i] in m && result[i] == call(fn, m[kat[i]]) && at[kat[i]] == i
+//@   ensures forall k K :: k in m ==> 0 <= at[k] && at[k] < len(result) && kat[at[k]] == k
+//@ loop 1
+//@   invariant fresh(result) && len(result) == len(m) && idx == $n && 0 <= idx && idx <= len(m)
+//@   invariant forall i int :: 0 <= i && i < idx ==> kat[i] in $visited && result[i] == call(fn, m[kat[i]]) && at[kat[i]] == i
+//@   invariant forall k K :: k in $visited ==> k in m && 0 <= at[k] && at[k] < idx && kat[at[k]] == k
+//@   ghost at[$key] = idx - 1
+//@   ghost kat[idx - 1] = $key
+
+//@ func gogu.FilterMap
+//@   property C14 C16
+//@   requires fn != nil
+//@   ensures fresh(result) && result != nil
+//@   ensures forall k K :: k in result <==> (k in m && call(fn, m[k]))
+//@   ensures forall k K :: k in result ==> result[k] == m[k]
+//@ loop 1
+//@   invariant fresh(filtered) && filtered != nil
+//@   invariant forall k K :: k in filtered <==> (k in $visited && call(fn, m[k]))
+//@   invariant forall k K :: k in $visited ==> k in m
+//@   invariant forall k K :: k in filtered ==> filtered[k] == m[k]
+
+//@ func gogu.PickBy
+//@   property C14 C16
+//@   requires fn != nil
+//@   ensures fresh(result) && result != nil
+//@   ensures forall k K :: k in result <==> (k in collection && call(fn, k, collection[k]))
+//@   ensures forall k K :: k in result ==> result[k] == collection[k]
+//@ loop 1
+//@   invariant fresh(result) && result != nil
+//@   invariant forall k K :: k in result <==> (k in $visited && call(fn, k, collection[k]))
+//@   invariant forall k K :: k in $visited ==> k in collection
+//@   invariant forall k K :: k in result ==> result[k] == collection[k]
+
+//@ func gogu.Pick
+//@   property C14 C16
+//@   ghost w int
+//@   ensures fresh(result0) && result0 != nil
+//@   ensures len(keys) == 0 ==> result1 != nil && forall k K :: !(k in result0)
+//@   ensures len(keys) > 0 ==> result1 == nil
+//@   ensures len(keys) > 0 ==> forall k K :: k in result0 <==> (k in collection && exists j int :: 0 <= j && j < len(keys) && keys[j] == k)
+//@   ensures forall k K :: k in result0 ==> result0[k] == collection[k]
+//@ loop 1
+//@   invariant fresh(result) && result != nil
+//@   invariant forall k K :: k in result <==> (k in $visited && exists j int :: 0 <= j && j < len(keys) && keys[j] == k)
+//@   invariant forall k K :: k in $visited ==> k in collection
+//@   invariant forall k K :: k in result ==> result[k] == collection[k]
+
+//@ func gogu.Omit
+//@   property C14 C16
+//@   modifies map(collection)
+//@   ghost w int
+//@   ensures result == collection
+//@   ensures forall k K :: k in collection <==> (old(k in collection) && !(exists j int :: 0 <= j && j < len(keys) && keys[j] == k))
+//@   ensures forall k K :: k in collection ==> collection[k] == old(collection[k])
+//@ loop 1
+//@   invariant forall k K :: k in collection <==> (old(k in collection) && !(k in $visited && exists j int :: 0 <= j && j < len(keys) && keys[j] == k))
+//@   invariant forall k K :: k in $visited ==> old(k in collection)
+//@   invariant forall k K :: k in collection ==> collection[k] == old(collection[k])
+
+//@ func gogu.OmitBy
+//@   property C14 C16
+//@   requires fn != nil
+//@   modifies map(collection)
+//@   ensures result == collection
+//@   ensures forall k K :: k in collection <==> (old(k in collection) && !call(fn, k, old(collection[k])))
+//@   ensures forall k K :: k in collection ==> collection[k] == old(collection[k])
+//@ loop 1
+//@   invariant forall k K :: k in collection <==> (old(k in collection) && !(k in $visited && call(fn, k, old(collection[k]))))
+//@   invariant forall k K :: k in $visited ==> old(k in collection)
+//@   invariant forall k K :: k in collection ==> collection[k] == old(collection[k])
+
+//@ func gogu.Invert
+//@   property C14 C16
+//@   ghost at map[K]int
+//@   ensures fresh(result) && result != nil
+//@   ensures forall v V :: v in result ==> result[v] in m && m[result[v]] == v
+//@   ensures forall k K :: k in m ==> m[k] in result
+//@ loop 1
+//@   invariant fresh(inverted) && inverted != nil && 0 <= i && i <= len(keys) && fresh(keys)
+//@   invariant forall v V :: v in inverted ==> inverted[v] in m && m[inverted[v]] == v
+//@   invariant forall j int :: 0 <= j && j < i ==> m[keys[j]] in inverted
+
+//@ func gogu.Pluck
+//@   property C14 C16
+//@   ghost pos map[int]int
+//@   ghost back map[int]int
+//@   ensures fresh(result)
+//@   ensures forall k int :: 0 <= k && k < len(result) ==> 0 <= pos[k] && pos[k] < len(mapSlice) && key in mapSlice[pos[k]] && result[k] == mapSlice[pos[k]][key]
+//@   ensures forall a int, b int :: 0 <= a && a < b && b < len(result) ==> pos[a] < pos[b]
+//@   ensures forall j int :: 0 <= j && j < len(mapSlice) && key in mapSlice[j] ==> 0 <= back[j] && back[j] < len(result) && pos[back[j]] == j
+//@ loop 1
+//@   invariant fresh(result) && 0 <= $i && $i <= len(mapSlice)
+//@   invariant forall k int :: 0 <= k && k < len(result) ==> 0 <= pos[k] && pos[k] < $i && key in mapSlice[pos[k]] && result[k] == mapSlice[pos[k]][key]
+//@   invariant forall a int, b int :: 0 <= a && a < b && b < len(result) ==> pos[a] < pos[b]
+//@   invariant forall j int :: 0 <= j && j < $i && key in mapSlice[j] ==> 0 <= back[j] && back[j] < len(result) && pos[back[j]] == j
+//@   ghost pos[len(result)-1] = $i when ok
+//@   ghost back[$i] = len(result)-1 when ok
+
+//@ func gogu.SliceToMap
+//@   property C14 C16
+//@   panics-when len(s1) != len(s2)
+//@   ghost last map[K]int
+//@   ensures fresh(result) && result != nil
+//@   ensures forall k K :: k in result ==> 0 <= last[k] && last[k] < len(s1) && s1[last[k]] == k && result[k] == s2[last[k]]
+//@   ensures forall k K, j int :: k in result && last[k] < j && j < len(s1) ==> s1[j] != k
+//@   ensures forall j int :: 0 <= j && j < len(s1) ==> s1[j] in result
+//@ loop 1
+//@   invariant fresh(result) && result != nil && 0 <= i && i <= len(s1) && len(s1) == len(s2)
+//@   invariant forall k K :: k in result ==> 0 <= last[k] && last[k] < i && s1[last[k]] == k && result[k] == s2[last[k]]
+//@   invariant forall k K, j int :: k in result && last[k] < j && j < i ==> s1[j] != k
+//@   invariant forall j int :: 0 <= j && j < i ==> s1[j] in result
+//@   ghost last[s1[pre(i)]] = pre(i)
+
+//@ func gogu.FindKey
+//@   property C14 C16
+//@   requires fn != nil
+//@   ensures (exists k K :: k in m && call(fn, m[k])) ==> result in m && call(fn, m[result])
+//@   ensures !(exists k K :: k in m && call(fn, m[k])) ==> result == zero
+//@ loop 1
+//@   invariant result == zero
+//@   invariant forall k K :: k in $visited ==> k in m && !call(fn, m[k])
+
+//@ func gogu.FilterMapCollection
+//@   property C14 C16
+//@   requires fn != nil
+//@   ghost pos map[int]int
+//@   ghost back map[int]int
+//@   ensures fresh(result)
+//@   ensures forall k int :: 0 <= k && k < len(result) ==> 0 <= pos[k] && pos[k] < len(collection) && result[k] == collection[pos[k]] && exists x K :: x in collection[pos[k]] && call(fn, collection[pos[k]][x])
+//@   ensures forall a int, b int :: 0 <= a && a < b && b < len(result) ==> pos[a] < pos[b]
+//@   ensures forall j int :: 0 <= j && j < len(collection) && (exists x K :: x in collection[j] && call(fn, collection[j][x])) ==> 0 <= back[j] && back[j] < len(result) && pos[back[j]] == j
+//@ loop 1
+//@   invariant fresh(filtered) && 0 <= $i && $i <= len(collection)
+//@   invariant forall k int :: 0 <= k && k < len(filtered) ==> 0 <= pos[k] && pos[k] < $i && filtered[k] == collection[pos[k]] && exists x K :: x in collection[pos[k]] && call(fn, collection[pos[k]][x])
+//@   invariant forall a int, b int :: 0 <= a && a < b && b < len(filtered) ==> pos[a] < pos[b]
+//@   invariant forall j int :: 0 <= j && j < $i && (exists x K :: x in collection[j] && call(fn, collection[j][x])) ==> 0 <= back[j] && back[j] < len(filtered) && pos[back[j]] == j
+//@   ghost-at append#1: pos[len($ret)-1] = $i1
+//@   ghost-at append#1: back[$i1] = len($ret)-1
+//@ loop 2
+//@   invariant forall x K :: x in $visited ==> x in item && !call(fn, item[x])
+//@   invariant fresh(filtered) && len(filtered) == lold(len(filtered)) && sarr(filtered) == lold(sarr(filtered))
+
+//@ func gogu.Filter2DMapCollection
+//@   property C14 C16
+//@   requires fn != nil
+//@   ghost pos map[int]int
+//@   ghost back map[int]int
+//@   ensures fresh(result)
+//@   ensures forall k int :: 0 <= k && k < len(result) ==> 0 <= pos[k] && pos[k] < len(collection) && result[k] == collection[pos[k]] && exists x K :: x in collection[pos[k]] && call(fn, collection[pos[k]][x])
+//@   ensures forall a int, b int :: 0 <= a && a < b && b < len(result) ==> pos[a] < pos[b]
+//@   ensures forall j int :: 0 <= j && j < len(collection) && (exists x K :: x in collection[j] && call(fn, collection[j][x])) ==> 0 <= back[j] && back[j] < len(result) && pos[back[j]] == j
+//@ loop 1
+//@   invariant fresh(filtered) && 0 <= $i && $i <= len(collection)
+//@   invariant forall k int :: 0 <= k && k < len(filtered) ==> 0 <= pos[k] && pos[k] < $i && filtered[k] == collection[pos[k]] && exists x K :: x in collection[pos[k]] && call(fn, collection[pos[k]][x])
+//@   invariant forall a int, b int :: 0 <= a && a < b && b < len(filtered) ==> pos[a] < pos[b]
+//@   invariant forall j int :: 0 <= j && j < $i && (exists x K :: x in collection[j] && call(fn, collection[j][x])) ==> 0 <= back[j] && back[j] < len(filtered) && pos[back[j]] == j
+//@   ghost-at append#1: pos[len($ret)-1] = $i1
+//@   ghost-at append#1: back[$i1] = len($ret)-1
+//@ loop 2
+//@   invariant forall x K :: x in $visited ==> x in item && !call(fn, item[x])
+//@   invariant fresh(filtered) && len(filtered) == lold(len(filtered)) && sarr(filtered) == lold(sarr(filtered))
+
+//@ func gogu.PartitionMap
+//@   property C14 C16
+//@   requires fn != nil
+//@   ghost pos0 map[int]int
+//@   ghost back0 map[int]int
+//@   ghost pos1 map[int]int
+//@   ghost back1 map[int]int
+//@   ghost some map[int]K
+//@   ensures fresh(result[0]) && fresh(result[1])
+//@   ensures forall k int :: 0 <= k && k < len(result[0]) ==> 0 <= pos0[k] && pos0[k] < len(mapSlice) && result[0][k] == mapSlice[pos0[k]] && call(fn, mapSlice[pos0[k]]) && exists x K :: x in mapSlice[pos0[k]]
+//@   ensures forall a int, b int :: 0 <= a && a < b && b < len(result[0]) ==> pos0[a] < pos0[b]
+//@   ensures forall j int :: 0 <= j && j < len(mapSlice) && call(fn, mapSlice[j]) && (exists x K :: x in mapSlice[j]) ==> 0 <= back0[j] && back0[j] < len(result[0]) && pos0[back0[j]] == j
+//@   ensures forall k int :: 0 <= k && k < len(result[1]) ==> 0 <= pos1[k] && pos1[k] < len(mapSlice) && result[1][k] == mapSlice[pos1[k]] && !call(fn, mapSlice[pos1[k]]) && exists x K :: x in mapSlice[pos1[k]]
+//@   ensures forall a int, b int :: 0 <= a && a < b && b < len(result[1]) ==> pos1[a] < pos1[b]
+//@   ensures forall j int :: 0 <= j && j < len(mapSlice) && !call(fn, mapSlice[j]) && (exists x K :: x in mapSlice[j]) ==> 0 <= back1[j] && back1[j] < len(result[1]) && pos1[back1[j]] == j
+//@ loop 1
+//@   invariant 0 <= $i && $i <= len(mapSlice)
+//@   invariant fresh(result[0]) && fresh(result[1]) && (sarr(result[0]) != sarr(result[1]) || sarr(result[0]) == 0)
+//@   invariant forall k int :: 0 <= k && k < len(result[0]) ==> 0 <= pos0[k] && pos0[k] < $i && result[0][k] == mapSlice[pos0[k]] && call(fn, mapSlice[pos0[k]]) && some[pos0[k]] in mapSlice[pos0[k]]
+//@   invariant forall a int, b int :: 0 <= a && a < b && b < len(result[0]) ==> pos0[a] < pos0[b]
+//@   invariant forall j int :: 0 <= j && j < $i && call(fn, mapSlice[j]) && (exists x K :: x in mapSlice[j]) ==> 0 <= back0[j] && back0[j] < len(result[0]) && pos0[back0[j]] == j
+//@   invariant forall k int :: 0 <= k && k < len(result[1]) ==> 0 <= pos1[k] && pos1[k] < $i && result[1][k] == mapSlice[pos1[k]] && !call(fn, mapSlice[pos1[k]]) && some[pos1[k]] in mapSlice[pos1[k]]
+//@   invariant forall a int, b int :: 0 <= a && a < b && b < len(result[1]) ==> pos1[a] < pos1[b]
+//@   invariant forall j int :: 0 <= j && j < $i && !call(fn, mapSlice[j]) && (exists x K :: x in mapSlice[j]) ==> 0 <= back1[j] && back1[j] < len(result[1]) && pos1[back1[j]] == j
+//@   invariant forall j int :: 0 <= j && j < len(mapSlice) ==> unchanged(mapSlice[j])
+//@   ghost some[$i] = k
+//@   ghost-at append#1: pos0[len($ret)-1] = $i1
+//@   ghost-at append#1: back0[$i1] = len($ret)-1
+//@   ghost-at append#2: pos1[len($ret)-1] = $i1
+//@   ghost-at append#2: back1[$i1] = len($ret)-1
+
+//@ func gogu.Find
+//@   property C14 C16
+//@   requires fn != nil
+//@   ghost at map[K]int
+//@   ensures fresh(result) && result != nil
+//@   ensures forall k K :: k in result ==> k in m && result[k] == m[k] && call(fn, m[k])
+//@   ensures forall k K, k2 K :: k in result && k2 in m && call(fn, m[k2]) ==> k <= k2
+//@   ensures forall k1 K, k2 K :: k1 in result && k2 in result ==> k1 == k2
+//@   ensures (exists k K :: k in m && call(fn, m[k])) ==> exists k K :: k in result
+//@ loop 1
+//@   invariant fresh(result) && result != nil && fresh(keys) && len(keys) == len(m) && i == $n && 0 <= i && i <= len(m)
+//@   invariant forall k K :: !(k in result)
+//@   invariant forall j int :: 0 <= j && j < i ==> keys[j] in $visited && at[keys[j]] == j
+//@   invariant forall k K :: k in $visited ==> k in m && 0 <= at[k] && at[k] < i && keys[at[k]] == k
+//@   ghost at[k] = i - 1
+//@ loop 2
+//@   invariant fresh(result) && result != nil && 0 <= $i && $i <= len(keys)
+//@   invariant forall k K :: !(k in result)
+//@   invariant forall j int :: 0 <= j && j < $i ==> !call(fn, m[keys[j]])
+//@   invariant forall a int, b int :: 0 <= a && a < b && b < len(keys) ==> keys[a] <= keys[b]
+//@   invariant forall k2 K :: k2 in m ==> exists p int :: 0 <= p && p < len(keys) && keys[p] == k2
